@@ -119,6 +119,20 @@ fn handle(line: &str) -> String {
 			),
 			Err(_) => "-".into(),
 		},
+		// an error object built through the public constructors from a data text: serialise, parse back, compare
+		"mkerr" => {
+			let data: Option<Box<RawValue>> = if b.is_empty() { None } else { RawValue::from_string(String::from_utf8(b).unwrap()).ok() };
+			let e1 = ErrorObject::owned(-32000, "m", data.clone());
+			let e2 = ErrorObject::borrowed(-32000, "m", data.as_deref());
+			let mut out = Vec::new();
+			for e in [e1, e2] {
+				let ser = serde_json::to_vec(&e).unwrap();
+				let back: ErrorObject = serde_json::from_slice(&ser).unwrap();
+				let reser = serde_json::to_vec(&back).unwrap();
+				out.push(format!("eq={} same_bytes={} {}", back == e, reser == ser, hex(&ser)));
+			}
+			out.join(" ; ")
+		}
 		// error code <-> kind, on one code
 		"code" => {
 			let c: i32 = String::from_utf8(b).unwrap().parse().unwrap();
